@@ -214,6 +214,12 @@ func jobC02(c *rt.Ctx) {
 		}()
 		s3, e3 := priv.Sign(nil, msg, opts)
 		check("options", s3, e3)
+		// the same Options value a caller uses for ZIP-215 verification handed to Sign: the
+		// verification-only field must not steer signing
+		oz := *opts
+		oz.ZIP215Verify = true
+		sz, ez := priv.Sign(nil, msg, &oz)
+		check("options-zip215", sz, ez)
 		if rec.calls != 0 {
 			c.Violation("C02 entropy-read", "PrivateKey.Sign read from its entropy argument", map[string]interface{}{"calls": rec.calls})
 		}
